@@ -17,8 +17,9 @@ completeness for its grammar, `Px.Chunk.parse_stream`, in the C03 owner's `Chunk
 Models: `PxModel/Chunk.lean`, `Parser.lean`, `Build.lean`, `UpdateBody.lean`; tied to
 `proxy/http/parser/chunk.py`, `parser.py`, `proxy/common/utils.py` by `harness/c15.py`.
 
-Open findings stated as witness theorems at the end: D22 (chunked trailers), D23 (`update_body` on
-a chunked message is encoded twice by `build()`), D24 (a path starting with `//` is not read back).
+Open findings stated as witness theorems at the end: D22 (chunked trailers), D24 (a path starting
+with `//` is not read back).  D23 (`update_body` on a chunked message was chunk-encoded twice by
+`build()`) is fixed (4312341): `C15_update_body_chunked` is now the full positive statement.
 -/
 namespace Px.Codec
 
@@ -368,24 +369,57 @@ theorem C15_update_body_gzip (gz gunzip : Bytes → Bytes) (hinv : ∀ x, gunzip
 example : ∀ x : Bytes, (id : Bytes → Bytes) (id x) = x := fun _ => rfl
 example : isGzip [(kCE, ([67, 69], vGzip))] = true := by decide
 
-/-- **C15 update_body, chunked request — partial (finding D23).**
-    FULL statement wanted: the rebuilt message decodes to the new (possibly compressed) body,
-    `r.body = some (updBody gz h body)`.  That is false for the code as it is (`C15_witness_D23`).
-    What is proved: `update_body` succeeds, stores the chunk encoding `enc` of the new body, drops
-    `content-length`; `build()` succeeds and its output is read back complete and chunked with the
-    expected header map — but its decoded body is `enc`, i.e. the body went over the wire
-    chunk-encoded twice. -/
-theorem C15_update_body_chunked_partial (cfg : Cfg) (gz : Bytes → Bytes) (bufSize : Nat) (hbs : bufSize ≠ 0)
+/-- **C15 update_body, chunked request.**  `update_body` stores the new body decoded (compressed with
+    `gz` iff `content-encoding: gzip`), drops `content-length`, sets `Content-Type`; `build()` re-chunks
+    it once; the rebuilt message is read back complete and chunked with the expected header map and
+    **decodes to the new body** (the statement that was false before fix 4312341, finding D23). -/
+theorem C15_update_body_chunked (cfg : Cfg) (gz : Bytes → Bytes) (bufSize : Nat) (hbs : bufSize ≠ 0)
     (p : Parser) (meth ver body ct : Bytes) (g : ReqGuard p meth ver) (hch : p.isChunked = true)
     (hte : ∃ a ∈ p.headers.getD [], isTEChunked a.2 = true) (hct : wfValue ct = true) :
-    ∃ p' enc raw r, updateBody gz bufSize p body ct = .ok p' ∧
-      Px.Chunk.toChunks (updBody gz (p.headers.getD []) body) bufSize = .ok enc ∧
-      p'.body = some enc ∧
+    ∃ p' raw r, updateBody gz bufSize p body ct = .ok p' ∧
+      p'.body = some (updBody gz (p.headers.getD []) body) ∧
       Px.Build.build bufSize Px.Gen.defaultDisableHeaders p' none none = .ok raw ∧
       parse cfg (init .request) raw = .ok r ∧ r.state = .complete ∧ r.isChunked = true ∧
-      r.headers = some (updHeadersCh (p.headers.getD []) ct) ∧ r.body = some enc ∧ r.buffer = none :=
-  update_body_req_chunked_partial cfg gz bufSize hbs p meth ver body ct g hch hte hct
+      r.method = some meth ∧ r.version = some ver ∧ r.path = some (pathOf p) ∧
+      r.headers = some (updHeadersCh (p.headers.getD []) ct) ∧
+      r.body = some (updBody gz (p.headers.getD []) body) ∧ r.buffer = none :=
+  update_body_req_chunked cfg gz bufSize hbs p meth ver body ct g hch hte hct
 
+/-- the same for chunked responses -/
+theorem C15_update_body_chunked_resp (cfg : Cfg) (gz : Bytes → Bytes) (bufSize : Nat) (hbs : bufSize ≠ 0)
+    (p : Parser) (ver code body ct : Bytes) (n : Int) (g : ResGuard p ver code n) (hch : p.isChunked = true)
+    (hte : ∃ a ∈ p.headers.getD [], isTEChunked a.2 = true) (hct : wfValue ct = true) :
+    ∃ p' raw r, updateBody gz bufSize p body ct = .ok p' ∧
+      p'.body = some (updBody gz (p.headers.getD []) body) ∧
+      buildResponseOf bufSize p' = .ok raw ∧
+      parse cfg (init .response) raw = .ok r ∧ r.state = .complete ∧ r.isChunked = true ∧
+      r.version = some ver ∧ r.code = some code ∧
+      r.headers = some (updHeadersCh (p.headers.getD []) ct) ∧
+      r.body = some (updBody gz (p.headers.getD []) body) ∧ r.buffer = none :=
+  update_body_resp_chunked cfg gz bufSize hbs p ver code body ct n g hch hte hct
+
+/-- the parsed form of `POST / HTTP/1.1`, `Transfer-Encoding: chunked`, body `hello` -/
+def exChunkedHello : Parser :=
+  { exChunkedEmpty with body := some [104, 101, 108, 108, 111] }
+
+/-- the former D23 witness, now positive: `update_body(b'NEWBODY', b'text/plain')` on the chunked
+    request above, then `build()`: a receiver reads back the body `NEWBODY` -/
+theorem C15_update_body_chunked_example (cfg : Cfg) :
+    ∃ p' raw r, updateBody id Px.Gen.defaultBufferSize exChunkedHello [78, 69, 87, 66, 79, 68, 89]
+        [116, 101, 120, 116, 47, 112, 108, 97, 105, 110] = .ok p' ∧
+      Px.Build.build Px.Gen.defaultBufferSize Px.Gen.defaultDisableHeaders p' none none = .ok raw ∧
+      parse cfg (init .request) raw = .ok r ∧ r.state = .complete ∧
+      r.body = some [78, 69, 87, 66, 79, 68, 89] := by
+  have g : ReqGuard exChunkedHello [80, 79, 83, 84] [72, 84, 84, 80, 47, 49, 46, 49] :=
+    ⟨rfl, rfl, rfl, by decide, by decide, by decide, by decide, by decide⟩
+  obtain ⟨p', raw, r, h1, -, h3, h4, h5, -, -, -, -, -, h10, -⟩ :=
+    update_body_req_chunked cfg id Px.Gen.defaultBufferSize (by decide) exChunkedHello
+      [80, 79, 83, 84] [72, 84, 84, 80, 47, 49, 46, 49] [78, 69, 87, 66, 79, 68, 89]
+      [116, 101, 120, 116, 47, 112, 108, 97, 105, 110] g rfl
+      ⟨_, List.mem_cons_self .., by decide⟩ (by decide)
+  have hu : updBody id (exChunkedHello.headers.getD []) [78, 69, 87, 66, 79, 68, 89] =
+      [78, 69, 87, 66, 79, 68, 89] := by decide
+  exact ⟨p', raw, r, h1, h3, h4, h5, by rw [h10, hu]⟩
 
 /-! ## well-formedness of what is written (`WF_message`) -/
 
@@ -447,35 +481,6 @@ theorem C15_witness_D22 :
        84, 114, 97, 105, 108, 101, 114, 58, 32, 118, 13, 10, 13, 10] =
     .ok ({ state := .complete, body := [104, 101, 108, 108, 111], chunk := [], size := none },
          [84, 114, 97, 105, 108, 101, 114, 58, 32, 118, 13, 10, 13, 10]) := by rfl
-
-/-- the parsed form of `POST / HTTP/1.1`, `Transfer-Encoding: chunked`, body `hello` -/
-def exChunkedHello : Parser :=
-  { exChunkedEmpty with body := some [104, 101, 108, 108, 111] }
-
-/-- **D23** — `update_body(b'NEWBODY', b'text/plain')` on the chunked request above, then `build()`:
-    the message a receiver reads back has body `7 CRLF NEWBODY CRLF 0 CRLF CRLF`, not `NEWBODY`. -/
-theorem C15_witness_D23 (cfg : Cfg) :
-    ∃ p' raw r, updateBody id Px.Gen.defaultBufferSize exChunkedHello [78, 69, 87, 66, 79, 68, 89]
-        [116, 101, 120, 116, 47, 112, 108, 97, 105, 110] = .ok p' ∧
-      Px.Build.build Px.Gen.defaultBufferSize Px.Gen.defaultDisableHeaders p' none none = .ok raw ∧
-      parse cfg (init .request) raw = .ok r ∧ r.state = .complete ∧
-      r.body = some [55, 13, 10, 78, 69, 87, 66, 79, 68, 89, 13, 10, 48, 13, 10, 13, 10] ∧
-      r.body ≠ some [78, 69, 87, 66, 79, 68, 89] := by
-  have g : ReqGuard exChunkedHello [80, 79, 83, 84] [72, 84, 84, 80, 47, 49, 46, 49] :=
-    ⟨rfl, rfl, rfl, by decide, by decide, by decide, by decide, by decide⟩
-  obtain ⟨p', enc, raw, r, h1, h2, -, h4, h5, h6, -, -, h9, -⟩ :=
-    update_body_req_chunked_partial cfg id Px.Gen.defaultBufferSize (by decide) exChunkedHello
-      [80, 79, 83, 84] [72, 84, 84, 80, 47, 49, 46, 49] [78, 69, 87, 66, 79, 68, 89]
-      [116, 101, 120, 116, 47, 112, 108, 97, 105, 110] g rfl
-      ⟨_, List.mem_cons_self .., by decide⟩ (by decide)
-  have henc : enc = [55, 13, 10, 78, 69, 87, 66, 79, 68, 89, 13, 10, 48, 13, 10, 13, 10] := by
-    have hu : updBody id (exChunkedHello.headers.getD []) [78, 69, 87, 66, 79, 68, 89] =
-        [78, 69, 87, 66, 79, 68, 89] := by decide
-    rw [hu, toChunks_render _ _ (by decide)] at h2
-    have := Except.ok.inj h2
-    rw [← this]; decide
-  refine ⟨p', raw, r, h1, h4, h5, h6, by rw [h9, henc], ?_⟩
-  rw [h9, henc]; decide
 
 /-- the parsed form of `GET http://h//x HTTP/1.1`: path `//x` -/
 def exDoubleSlash : Parser :=
